@@ -3,9 +3,11 @@
    Models: Gen/GenState.v (hand model of the generator process: unique-name singleton, memo tables, per-generator line
    post-processor objects, _generate_code, generate_all, histories; tied by correspondence), Generated/Gen_Uniq.v (T2
    translation of UniqueNameGenerator and the translated fact generate_code_resets_uniq), Generated/Gen_LinePP.v (T2
-   translation of LimitEmptyLines / TrimTrailingWhitespace).  `log ... h` is the list of files written by history h started in
+   translation of LimitEmptyLines / TrimTrailingWhitespace), Gen/Lookup.v (C16's model of the template lookup walk and its memo,
+   imported).  `log ... h` is the list of files written by history h started in
    a new interpreter; `alone ... cf pps o` is the file of type object o written as the first and only file of a new interpreter. *)
 From Verif Require Import GenState GenStateThm.
+From Verif Require Lookup LookupThm.
 Open Scope N_scope.
 
 (* (1) uniq_reset: after UniqueNameGenerator.reset() the names handed out are a function of THIS file's call sequence only:
@@ -44,74 +46,110 @@ Theorem C10_closure_indep :
 Proof. exact resolve_indep_lemma. Qed.
 Print Assumptions C10_closure_indep.
 
-(* (4) file_indep, the code as it is (lel_shared = true, reset as translated): two files of the same type written under the same
-   configuration with identically constructed processors -- in ANY two histories (input sets, processing orders, earlier runs,
-   other generators, cache clearing, cache sizes) -- are equal, PROVIDED the LimitEmptyLines counters of the writing generator
-   were 0 when each file was started (e_clean; computed by the model, excluded trigger of F-LEL-LEAK). *)
-Theorem C10_file_indep_partial :
-  forall (U : universe) (render : N -> tyobj -> prog) (cfun : ckey -> str) (m1 m2 : option nat) (h1 h2 : list op) (e1 e2 : entry),
-    In e1 (log U render cfun m1 generate_code_resets_uniq true h1) ->
-    In e2 (log U render cfun m2 generate_code_resets_uniq true h2) ->
-    e_cfg e1 = e_cfg e2 -> e_pps0 e1 = e_pps0 e2 -> e_key e1 = e_key e2 ->
-    e_clean e1 = true -> e_clean e2 = true ->
-    e_text e1 = e_text e2.
+(* The pydsdl class graph: single inheritance below `object`, depth below the loop bound.  (C16_real_forest_hypotheses proves
+   this of the regenerated class table; the C10 check tests it on the table it hands to the extracted model.) *)
+Definition forest (bases : N -> list N) (rank : N -> nat) (fuel : nat) : Prop :=
+  (forall c, (length (bases c) <= 1)%nat) /\ (forall c p, In p (bases c) -> (rank p < rank c)%nat) /\ (forall c, (rank c < fuel)%nat).
+
+(* (4a) template selection: in EVERY history the template chosen for a file is the template of the nearest class of the type's
+   inheritance chain that the generator's listing has -- a function of (class of the type, template listing) only; the loader
+   memo (kept across files and generate_all calls) cannot change it. *)
+Theorem C10_template_selection_indep :
+  forall (U : universe) (bases : N -> list N) (cname : N -> str) (fuel : nat) (rank : N -> nat), forest bases rank fuel ->
+  forall (render : N -> option str -> tyobj -> prog) (cfun : ckey -> str) (lel_shared : bool) (m : option nat) (h : list op) (e : entry),
+    In e (log U bases cname fuel render cfun m generate_code_resets_uniq lel_shared h) ->
+    e_tmpl e = Lookup.nearest (Lookup.tmap cname (e_tset e)) (Lookup.chain_n bases (rank (obj_cls (e_obj e))) (obj_cls (e_obj e))).
 Proof.
-  intros U render cfun m1 m2 h1 h2 e1 e2 H1 H2 Hc Hp Hk C1 C2.
-  exact (file_indep_lemma U render cfun true m1 m2 h1 h2 e1 e2 H1 H2 Hc Hp Hk (or_intror (conj C1 C2))).
+  intros U bases cname fuel rank (H1 & H2 & H3) render cfun lel m h e Hin.
+  exact (template_selection_lemma U bases cname fuel rank H1 H2 H3 render cfun lel m h e Hin).
+Qed.
+Print Assumptions C10_template_selection_indep.
+
+(* (4) file_indep, the code as it is (lel_shared = true, reset as translated): two files of the same type written under the same
+   configuration and template listing with identically constructed processors -- in ANY two histories (input sets, processing
+   orders, earlier runs, other generators, cache clearing, cache sizes) -- come from the same template and are equal, PROVIDED
+   the LimitEmptyLines counters of the writing generator were 0 when each file was started (e_clean; computed by the model,
+   excluded trigger of F-LEL-LEAK). *)
+Theorem C10_file_indep_partial :
+  forall (U : universe) (bases : N -> list N) (cname : N -> str) (fuel : nat) (rank : N -> nat), forest bases rank fuel ->
+  forall (render : N -> option str -> tyobj -> prog) (cfun : ckey -> str) (m1 m2 : option nat) (h1 h2 : list op) (e1 e2 : entry),
+    In e1 (log U bases cname fuel render cfun m1 generate_code_resets_uniq true h1) ->
+    In e2 (log U bases cname fuel render cfun m2 generate_code_resets_uniq true h2) ->
+    e_cfg e1 = e_cfg e2 -> e_tset e1 = e_tset e2 -> e_pps0 e1 = e_pps0 e2 -> e_key e1 = e_key e2 ->
+    e_clean e1 = true -> e_clean e2 = true ->
+    e_tmpl e1 = e_tmpl e2 /\ e_text e1 = e_text e2.
+Proof.
+  intros U bases cname fuel rank (F1 & F2 & F3) render cfun m1 m2 h1 h2 e1 e2 H1 H2 Hc Ht Hp Hk C1 C2.
+  exact (file_indep_lemma U bases cname fuel rank F1 F2 F3 render cfun true m1 m2 h1 h2 e1 e2 H1 H2 Hc Ht Hp Hk
+           (or_intror (conj C1 C2))).
 Qed.
 Print Assumptions C10_file_indep_partial.
 
 (* ... and each such file is the file the type gets as the first and only file of a new interpreter *)
 Theorem C10_file_alone_partial :
-  forall (U : universe) (render : N -> tyobj -> prog) (cfun : ckey -> str) (m : option nat) (h : list op) (e : entry),
-    In e (log U render cfun m generate_code_resets_uniq true h) -> e_clean e = true ->
-    e_text e = alone render cfun m generate_code_resets_uniq true (e_cfg e) (e_pps0 e) (e_obj e).
+  forall (U : universe) (bases : N -> list N) (cname : N -> str) (fuel : nat) (rank : N -> nat), forest bases rank fuel ->
+  forall (render : N -> option str -> tyobj -> prog) (cfun : ckey -> str) (m : option nat) (h : list op) (e : entry),
+    In e (log U bases cname fuel render cfun m generate_code_resets_uniq true h) -> e_clean e = true ->
+    (e_tmpl e, e_text e) =
+      alone bases cname fuel render cfun m generate_code_resets_uniq true (e_cfg e) (e_tset e) (e_pps0 e) (e_obj e).
 Proof.
-  intros U render cfun m h e Hin Hc.
-  pose proof (log_entries_ok U render cfun m true h) as F. rewrite Forall_forall in F.
-  exact (proj2 (F e Hin) (or_intror Hc)).
+  intros U bases cname fuel rank (F1 & F2 & F3) render cfun m h e Hin Hc.
+  pose proof (log_entries_ok U bases cname fuel rank F1 F2 F3 render cfun m true h) as F. rewrite Forall_forall in F.
+  exact (proj2 (proj2 (F e Hin)) (or_intror Hc)).
 Qed.
 Print Assumptions C10_file_alone_partial.
 
 (* (5) the unrestricted statement is FALSE of the model of the code as it is: known finding F-LEL-LEAK.  Witness: limit 1, file
    of A = "a\n\n", file of B = "\nb"; whole namespace: B = "b"; subset {B}: B = "\nb". *)
 Theorem C10_lel_leak_refuted :
-  exists (U : universe) (render : N -> tyobj -> prog) (cfun : ckey -> str) (h1 h2 : list op) (e1 e2 : entry),
-    In e1 (log U render cfun None true true h1) /\ In e2 (log U render cfun None true true h2) /\
-    e_cfg e1 = e_cfg e2 /\ e_pps0 e1 = e_pps0 e2 /\ e_key e1 = e_key e2 /\ e_text e1 <> e_text e2.
+  exists (U : universe) (render : N -> option str -> tyobj -> prog) (cfun : ckey -> str) (h1 h2 : list op) (e1 e2 : entry),
+    In e1 (log U (ct_bases w_ct) (ct_name w_ct) 4 render cfun None true true h1) /\
+    In e2 (log U (ct_bases w_ct) (ct_name w_ct) 4 render cfun None true true h2) /\
+    e_cfg e1 = e_cfg e2 /\ e_tset e1 = e_tset e2 /\ e_pps0 e1 = e_pps0 e2 /\ e_key e1 = e_key e2 /\ e_text e1 <> e_text e2.
 Proof. exact lel_leak_refuted_lemma. Qed.
 Print Assumptions C10_lel_leak_refuted.
 
 Theorem C10_lel_leak_witness :
-  map e_text (exec_table w_U w_tab None true true w_hist_whole) = [[97; 10; 10]; [98]] /\
-  map e_text (exec_table w_U w_tab None true true w_hist_subset) = [[10; 98]].
+  map e_text (exec_table w_ct w_U false w_tab None true true w_hist_whole) = [[97; 10; 10]; [98]] /\
+  map e_text (exec_table w_ct w_U false w_tab None true true w_hist_subset) = [[10; 98]].
 Proof. exact lel_leak_witness. Qed.
 Print Assumptions C10_lel_leak_witness.
+
+(* the witness lives in a class forest that satisfies the hypotheses of (4) *)
+Theorem C10_witness_forest : forest (ct_bases w_ct) w_rank 4.
+Proof. exact w_forest_ok. Qed.
+Print Assumptions C10_witness_forest.
 
 (* (6) without the shared counter (processor state re-created per file: the variant the check uses when F-LEL-LEAK no longer
    reproduces) the statement holds with no side condition. *)
 Theorem C10_file_indep_noleak :
-  forall (U : universe) (render : N -> tyobj -> prog) (cfun : ckey -> str) (m1 m2 : option nat) (h1 h2 : list op) (e1 e2 : entry),
-    In e1 (log U render cfun m1 generate_code_resets_uniq false h1) ->
-    In e2 (log U render cfun m2 generate_code_resets_uniq false h2) ->
-    e_cfg e1 = e_cfg e2 -> e_pps0 e1 = e_pps0 e2 -> e_key e1 = e_key e2 ->
-    e_text e1 = e_text e2.
+  forall (U : universe) (bases : N -> list N) (cname : N -> str) (fuel : nat) (rank : N -> nat), forest bases rank fuel ->
+  forall (render : N -> option str -> tyobj -> prog) (cfun : ckey -> str) (m1 m2 : option nat) (h1 h2 : list op) (e1 e2 : entry),
+    In e1 (log U bases cname fuel render cfun m1 generate_code_resets_uniq false h1) ->
+    In e2 (log U bases cname fuel render cfun m2 generate_code_resets_uniq false h2) ->
+    e_cfg e1 = e_cfg e2 -> e_tset e1 = e_tset e2 -> e_pps0 e1 = e_pps0 e2 -> e_key e1 = e_key e2 ->
+    e_tmpl e1 = e_tmpl e2 /\ e_text e1 = e_text e2.
 Proof.
-  intros U render cfun m1 m2 h1 h2 e1 e2 H1 H2 Hc Hp Hk.
-  exact (file_indep_lemma U render cfun false m1 m2 h1 h2 e1 e2 H1 H2 Hc Hp Hk (or_introl eq_refl)).
+  intros U bases cname fuel rank (F1 & F2 & F3) render cfun m1 m2 h1 h2 e1 e2 H1 H2 Hc Ht Hp Hk.
+  exact (file_indep_lemma U bases cname fuel rank F1 F2 F3 render cfun false m1 m2 h1 h2 e1 e2 H1 H2 Hc Ht Hp Hk
+           (or_introl eq_refl)).
 Qed.
 Print Assumptions C10_file_indep_noleak.
 
-(* non-vacuity: a history with two generators, a subset, a permuted order and a second run whose files are all started with
-   zeroed counters; the shared type gets the same text four times *)
+(* non-vacuity: class forest C <- S, C <- U; listing {C.j2, U.j2}; struct A, union B depending on A.  Two generators, a subset,
+   permuted order, a second run, cache clearing, maxsize 1: every file starts with zeroed counters, the union always gets
+   U.j2 and the struct C.j2 (marker at the start of the text), the shared type gets the same text every time. *)
 Example C10_partial_premise_satisfiable :
-  let U := [([65], {| d_body := [120]; d_deps := [] |}); ([66], {| d_body := [121]; d_deps := [[65]] |})] in
+  let ts := [([67], [67; 46; 106; 50]); ([85], [85; 46; 106; 50])] in
+  let U := [([65], {| d_cls := 1; d_body := [120]; d_deps := [] |}); ([66], {| d_cls := 2; d_body := [121]; d_deps := [[65]] |})] in
   let tab := [((1, [65]), [IText [97; 10]; IUniq [99] [102] [95] [95]; IText [10]]);
               ((1, [66]), [IUniq [99] [102] [95] [95]; IUniq [99] [102] [95] [95]; IText [10; 10; 98; 10]])] in
-  let h := [ONew 1 [PLimit (LimitEmptyLines_init 1); PTrim] [[65]; [66]]; ORun 0 [[66]; [65]];
-            ONew 1 [PLimit (LimitEmptyLines_init 1); PTrim] [[65]]; ORun 1 [[65]]; OClear; ORun 0 [[65]; [66]]] in
-  map (fun e => (e_key e, e_clean e)) (exec_table U tab (Some 1%nat) true true h) =
-    [([66], true); ([65], true); ([65], true); ([65], true); ([66], true)] /\
-  map e_text (filter (fun e => str_eqb (e_key e) [65]) (exec_table U tab (Some 1%nat) true true h)) =
-    [[97; 10; 95; 102; 48; 95; 10]; [97; 10; 95; 102; 48; 95; 10]; [97; 10; 95; 102; 48; 95; 10]].
+  let h := [ONew 1 ts [PLimit (LimitEmptyLines_init 1); PTrim] [[65]; [66]]; ORun 0 [[65]; [66]];
+            ONew 1 ts [PLimit (LimitEmptyLines_init 1); PTrim] [[65]]; ORun 1 [[65]]; OClear; ORun 0 [[66]; [65]]] in
+  map (fun e => (e_key e, e_tmpl e, e_clean e)) (exec_table w_ct U true tab (Some 1%nat) true true h) =
+    [([65], Some [67; 46; 106; 50], true); ([66], Some [85; 46; 106; 50], true); ([65], Some [67; 46; 106; 50], true);
+     ([66], Some [85; 46; 106; 50], true); ([65], Some [67; 46; 106; 50], true)] /\
+  map e_text (filter (fun e => str_eqb (e_key e) [65]) (exec_table w_ct U true tab (Some 1%nat) true true h)) =
+    [[60; 67; 46; 106; 50; 62; 97; 10; 95; 102; 48; 95; 10]; [60; 67; 46; 106; 50; 62; 97; 10; 95; 102; 48; 95; 10];
+     [60; 67; 46; 106; 50; 62; 97; 10; 95; 102; 48; 95; 10]].
 Proof. vm_compute. split; reflexivity. Qed.
